@@ -52,6 +52,11 @@ CLAIMED = {
          "Every durable row must be named (table, pk values) by the lock key of the registration preceding its commit, with one key text per row across the run; SELECT ... FOR UPDATE returns rows only after a lockable answer naming them and releases its local locks on conflict; no commit while the coordinator's lock table has the row held by another xid or after a refused registration.",
          "Lock-key grammar and lock-table semantics are those of Seata (keys opaque to the coordinator). Interleavings of the two-transaction part are limited to orders the database's row locks permit.",
          "DESIGN.md §4 C03"),
+ "C08": ("exploration",
+         "runtime monitor: the (context, rollback_info) pair the real flush sends to the fake database is decoded by an independent reader selected by the context alone (own context parser, own decompressor table, own JSON and protobuf-wire readers) and compared value by value with ground-truth row versions; the real rollback path then has to read the same pair with data validation on",
+         "62 cells = serializer {json, protobuf} x compress type {None, Gzip, Zip, Bzip2, Lz4, Deflate, Zstd, unknown spellings} x threshold {0, 2k, 64k} (+ compression disabled), each with generated programs over 17 column kinds (NULL, empty / base64-, number-, JSON-looking strings, full-range signed and unsigned 64-bit integers, FLOAT/DOUBLE/DECIMAL, DATE/DATETIME(6)/TIMESTAMP(3), BLOB/VARBINARY) and logs of up to 1 MB that compress by more than 100:1; verdicts: context sufficient to decode, written values and key flags == ground truth, rollback answers Rollbacked and restores the pre-state (the executors' own equality accepted the decoded images), no panic.",
+         "An undo log the flush refuses to write (error to the caller, nothing committed - e.g. Lz4 on incompressible input) gets no verdict. Row membership of images is C18's subject.",
+         "DESIGN.md §4 C08"),
  "C09": ("exploration",
          "runtime monitor: real AT driver + RM in a client child against the MySQL-protocol fake and the fake coordinator; a foreign writer (plain connection) modifies the branch's rows between local commit and BranchRollback; three-way oracle on ground-truth row versions (before branch / after branch / current) taken from the fake database, never from the undo log",
          "Committed branches (INSERT 1/3 rows, UPDATE 1/many rows incl. value-preserving updates, DELETE 1/many rows, upsert hit/miss; four key shapes) x foreign modification {none, written column, unwritten column, delete, re-insert same/different, some rows of many, revert to before} x foreign value {far, near: neighbour integers incl. beyond 2^53, next float, numeric-looking text in another spelling, +1 s} x only-care-update-columns x serializer; dirty rows must survive with the undo log kept and a non-Rollbacked answer; rows equal to the before image => Rollbacked without a durable write; rows equal to the after image => restored.",
